@@ -79,7 +79,7 @@ def streams(ctx):
             if p[0] == "params_gourdon" and len(r) == 7:
                 out.append("params_gourdon_chk %s %s %s" % (p[1], r[5], r[6]))
             elif p[0] == "params_dr" and len(r) == 5:
-                out.append("params_dr_chk %s %s" % (p[1], r[4]))
+                out.append("params_dr_chk %s %s %s" % (p[1], r[4], r[3]))
             else:
                 out.append("# unparsable " + a)
         return out
